@@ -4,10 +4,10 @@
     Manager check order and lazy tracker creation, UpdatePolicy -- as written) with a DENSE
     integer clock on a structure-preserving scale-down (3 slots of 2 units, hour = 2 windows,
     day = 2 hours): invariants WindowBound / HourQuota / DayQuota and the action property
-    RateRejectFree.  The as-written parameterisation (Extra = 0 ring slots, reset strictly after
-    the boundary) is expected to violate them: that is a candidate.  The repaired
-    parameterisation (one extra ring slot, reset at the boundary) is model-checked exhaustively
-    as the non-vacuity witness.
+    RateRejectFree, instantiated with the ring shape and reset rule probed on the working tree
+    (one extra ring slot, reset at the boundary since 5869152): they hold over the whole graph.
+    Negative controls TLC must reject: no extra slot (WindowBound), reset strictly after the
+    boundary (HourQuota/DayQuota) -- the code before that commit.
 (G) the same module with the REAL ring (N, Extra read from the limiter the Manager created) and
     the clock restricted to slot / window / hour / day boundary classes (slot start, +1ns, mid,
     end-1ns) enumerates every bounded schedule of requests and policy updates with predicted
@@ -92,25 +92,42 @@ def run(ctx):
 
     # ---- (M) dense small scope
     dense = range(0, 15 if quick else 21)
-    small = dict(N=3, D=2, HourU=12, DayU=24, Times=dense, RL="1,2", HL="0,2", DL=("0" if quick else "0,3"), MaxReq=4, MaxUpd=1)
+    small = dict(N=3, D=2, HourU=12, DayU=24, Times=dense, RL=("1,2" if quick else "0,1,2"), HL="0,2", DL=("0" if quick else "0,3"), MaxReq=4, MaxUpd=1)
     ex_small = min(shapes["minute"]["extra"], 1)
-    asb = ctx.tlc("ratelimit", "RateLimit", "MC_a.cfg", files={"MC_a.cfg": cfg(Extra=ex_small, rab=rab, inv=ALLINV, **small)},
-                  allow_violation=True, timeout=1500, workers=6)
-    rep = ctx.tlc("ratelimit", "RateLimit", "MC_r.cfg", files={"MC_r.cfg": cfg(Extra=1, rab=True, inv=(INV if quick else ALLINV), **small)},
-                  timeout=2400, workers=6)
+    cur = ctx.tlc("ratelimit", "RateLimit", "MC_cur.cfg", files={"MC_cur.cfg": cfg(Extra=ex_small, rab=rab, inv=(INV if quick else ALLINV), **small)},
+                  allow_violation=True, timeout=2400, workers=6)
+    wit, wit_extra = cur, ex_small
+    if cur.violated:
+        # the code as it is now is a candidate; non-vacuity witness: one extra slot + reset at the boundary
+        wit, wit_extra = ctx.tlc("ratelimit", "RateLimit", "MC_r.cfg", files={"MC_r.cfg": cfg(Extra=1, rab=True, inv=(INV if quick else ALLINV), **small)},
+                                 timeout=2400, workers=6), 1
+    # negative controls: the same module must REJECT the code before 5869152
+    ctl = {}
+    for name, ex, rb, expect in (("ring_without_extra_slot", 0, True, ("WindowBound",)),
+                                 ("reset_strictly_after_boundary", 1, False, ("HourQuota", "DayQuota"))):
+        if (ex, rb) == (ex_small, rab):
+            continue
+        # the quota control runs without a rate limit, which would otherwise throttle the burst after the boundary
+        scope = dict(small, RL="0", HL="1,2", DL="0") if name.startswith("reset") else small
+        nc = ctx.tlc("ratelimit", "RateLimit", "MC_negctl.cfg", files={"MC_negctl.cfg": cfg(Extra=ex, rab=rb, inv=INV, **scope)},
+                     allow_violation=True, timeout=1500, workers=6)
+        if nc.violated not in expect:
+            raise InfraError("negative control %s was not rejected by TLC (violated=%s): the model lost its teeth" % (name, nc.violated))
+        ctl[name] = {"extra": ex, "reset_at_boundary": rb, "violated": nc.violated, "distinct_at_stop": nc.distinct}
     deep = None
     if not quick:
         # thorough: the window invariant alone, longer clock and one more request
-        deep = ctx.tlc("ratelimit", "RateLimit", "MC_w.cfg", files={"MC_w.cfg": cfg(Extra=1, rab=True, inv="INVARIANTS WindowBound", N=3, D=2, HourU=12, DayU=24,
+        deep = ctx.tlc("ratelimit", "RateLimit", "MC_w.cfg", files={"MC_w.cfg": cfg(Extra=wit_extra, rab=True, inv="INVARIANTS WindowBound", N=3, D=2, HourU=12, DayU=24,
                        Times=range(0, 27), RL="1,2", HL="0", DL="0", MaxReq=5, MaxUpd=1)}, timeout=3000, workers=6)
     ctx.note("tlc_model_check", {
-        "as_written": {"extra": ex_small, "reset_at_boundary": rab, "violated": asb.violated, "distinct": asb.distinct, "generated": asb.generated, "depth": asb.depth},
-        "one_extra_slot_and_reset_at_boundary": {"violated": None, "distinct": rep.distinct, "generated": rep.generated, "depth": rep.depth,
-                                                 "vacuity": "action firing is established on the generated schedules (req/upd/outcome counts in tlc_generation)"},
+        "code_as_it_is": {"extra": ex_small, "reset_at_boundary": rab, "violated": cur.violated, "distinct": cur.distinct, "generated": cur.generated, "depth": cur.depth},
+        "witness_one_extra_slot_and_reset_at_boundary": (None if wit is cur else {"violated": None, "distinct": wit.distinct, "generated": wit.generated, "depth": wit.depth}),
+        "negative_controls_rejected": ctl,
+        "vacuity": "action firing is established on the generated schedules (req/upd/outcome counts in tlc_generation)",
         "window_only_5_requests_clock_0_26": (None if deep is None else {"distinct": deep.distinct, "generated": deep.generated, "depth": deep.depth}),
         "scope": "3 slots x 2 units, hour = 12 units, day = 24 units, dense clock 0..%d, %d requests, 1 policy update" % (max(dense), small["MaxReq"])})
-    ctx.log("TLC dense small scope: as written -> %s (%d distinct); one extra slot + reset at boundary -> holds (%d distinct)"
-            % ("violates " + asb.violated if asb.violated else "holds", asb.distinct, rep.distinct))
+    ctx.log("TLC dense small scope: code as it is (extra=%d, reset_at_boundary=%s) -> %s (%d distinct); negative controls rejected: %s"
+            % (ex_small, rab, "violates " + cur.violated if cur.violated else "holds", cur.distinct, sorted(ctl) or "n/a"))
 
     # ---- (G) real ring, boundary grid
     D = 4
